@@ -179,9 +179,9 @@ def res_kind(l):
 # generator plans
 
 G_COMMON_QUICK = [['model', 2500, 25], ['entities', 6], ['entity-boundary', 1], ['fixtures', 4000], ['mut', 1500, 400], ['enum', 2, 0], ['enum', 2, 1],
-                  ['enum', 2, 2], ['enum', 2, 3], ['lexedge', 1], ['manyattrs', 1], ['sizes', 1]]
+                  ['enum', 2, 2], ['enum', 2, 3], ['lexedge', 1], ['manyattrs', 1], ['sizes', 1], ['pairs', 1]]
 G_COMMON_THOROUGH = [['model', 120000, 25], ['entities', 64], ['entity-boundary', 1], ['exotic', 300], ['model', 30000, 0], ['fixtures', 20000], ['mut', 100000, 2000],
-                     ['prefixes', 600], ['dtdjunk', 3000], ['lexedge', 1], ['manyattrs', 1], ['dtdlit', 1], ['cdatalines', 5], ['entnames', 1], ['sizes', 2]] + [['enum', 4, k] for k in range(6)]
+                     ['prefixes', 600], ['dtdjunk', 3000], ['lexedge', 1], ['manyattrs', 1], ['dtdlit', 1], ['cdatalines', 5], ['entnames', 1], ['sizes', 2], ['pairs', 2]] + [['enum', 4, k] for k in range(6)]
 
 def plan(quick, thorough):
     return {'quick': quick, 'thorough': thorough}
@@ -447,10 +447,10 @@ def chk_decl_no_node(il, txt):
 PROPS['C03'] = P_('markup mirrors the logical structure', 'tok,arena,it', plan(G_COMMON_QUICK + [['dtdlit', 1]], G_COMMON_THOROUGH + [['dtdlit', 1]]), impl_checks=[chk_decl_no_node, chk_itx],
                   observable=obs_reject_wellformed(lambda d: d.markup()), internal=[('TK', tok_strings), ('TKRES', res_kind_only)], special='markup')
 PROPS['C04'] = P_('character data decoding', 'arena,ev,it',
-                  plan(G_COMMON_QUICK[:2] + [['pieces-text', 2], ['cdatalines', 4], ['lexedge', 1], ['sizes', 1]], G_COMMON_THOROUGH[:3] + [['pieces-text', 4], ['cdatalines', 5], ['lexedge', 1], ['sizes', 2]]),
+                  plan(G_COMMON_QUICK[:2] + [['pieces-text', 2], ['cdatalines', 4], ['lexedge', 1], ['sizes', 1], ['pairs', 1]], G_COMMON_THOROUGH[:3] + [['pieces-text', 4], ['cdatalines', 5], ['lexedge', 1], ['sizes', 2], ['pairs', 2]]),
                   observable=obs_with_rejects(lambda d: d.texts(), TEXT_ERRORS), impl_checks=[chk_itx], internal=[('EV F', strip_storage)], special='pieces_text', requires=['markup'])
 PROPS['C05'] = P_('attributes', 'arena,ev,it',
-                  plan(G_COMMON_QUICK[:2] + [['pieces-attr', 2], ['lexedge', 1], ['manyattrs', 1], ['sizes', 1]], G_COMMON_THOROUGH[:3] + [['pieces-attr', 4], ['lexedge', 1], ['manyattrs', 1], ['sizes', 2]]),
+                  plan(G_COMMON_QUICK[:2] + [['pieces-attr', 2], ['lexedge', 1], ['manyattrs', 1], ['sizes', 1], ['pairs', 1]], G_COMMON_THOROUGH[:3] + [['pieces-attr', 4], ['lexedge', 1], ['manyattrs', 1], ['sizes', 2], ['pairs', 2]]),
                   observable=obs_with_rejects(lambda d: d.attributes(), ATTR_ERRORS), impl_checks=[chk_itx], internal=[('EV V', strip_storage)], special='pieces_attr', requires=['markup'])
 NS_ERRORS = ('err:UnknownNamespace', 'err:DuplicatedNamespace', 'err:UnexpectedXmlUri', 'err:UnexpectedXmlnsUri',
              'err:InvalidXmlPrefixUri', 'err:InvalidElementNamePrefix', 'err:NamespacesLimitReached')
@@ -469,22 +469,22 @@ def obs_ns(di, dm, il, ml):
 
 PROPS['C06'] = P_('namespaces', 'arena', plan(G_COMMON_QUICK + [['ns', 1]], G_COMMON_THOROUGH + [['ns', 20]]),
                   observable=obs_ns, internal=[('V', strip_storage), 'O'], special='ns_scale', requires=['markup'])
-PROPS['C07'] = P_('entity reference = replacement text', 'arena', plan([['model', 1500, 10], ['entnames', 1], ['manyents', 1], ['sizes', 1]], [['model', 60000, 10], ['entnames', 1], ['manyents', 1], ['sizes', 2]]),
+PROPS['C07'] = P_('entity reference = replacement text', 'arena', plan([['model', 1500, 10], ['entnames', 1], ['manyents', 1], ['sizes', 1], ['pairs', 1]], [['model', 60000, 10], ['entnames', 1], ['manyents', 1], ['sizes', 2], ['pairs', 2]]),
                   observable=obs_entities(lambda d: d.content()), special='hoist')
-PROPS['C08'] = P_('ill-formed documents are rejected', 'tok,arena', plan(G_COMMON_QUICK, G_COMMON_THOROUGH),
+PROPS['C08'] = P_('ill-formed documents are rejected', 'tok,arena', plan(G_COMMON_QUICK + [['ns', 1]], G_COMMON_THOROUGH + [['ns', 10]]),
                   observable=lambda di, dm, il, ml: (res_kind(res_line(il)) == 'ok', res_kind(res_line(ml)) == 'ok'),
                   internal=[('RES', res_variant), ('TKRES', res_variant)], tie_on_rejects=True, special='illform')
-PROPS['C09'] = P_('entity expansion is bounded', 'arena,ev', plan([['model', 1500, 30], ['manyents', 1], ['sizes', 1]], [['model', 60000, 30], ['manyents', 1], ['sizes', 2]]),
+PROPS['C09'] = P_('entity expansion is bounded', 'arena,ev', plan([['model', 1500, 30], ['manyents', 1], ['sizes', 1], ['pairs', 1]], [['model', 60000, 30], ['manyents', 1], ['sizes', 2], ['pairs', 2]]),
                   observable=obs_flag('EntityReferenceLoop'), internal=['EV L'], impl_checks=[chk_size_bound, chk_no_panic], special='entities',
                   crash_is_violation=True)
-PROPS['C10'] = P_('read operations are total', 'arena,api,lk,it,tp', plan(G_COMMON_QUICK[:3] + [['lexedge', 1], ['manyattrs', 1], ['sizes', 1]], G_COMMON_THOROUGH[:4] + [['lexedge', 1], ['manyattrs', 1], ['sizes', 2]]),
+PROPS['C10'] = P_('read operations are total', 'arena,api,lk,it,tp', plan(G_COMMON_QUICK[:3] + [['lexedge', 1], ['manyattrs', 1], ['sizes', 1], ['pairs', 1]], G_COMMON_THOROUGH[:4] + [['lexedge', 1], ['manyattrs', 1], ['sizes', 2], ['pairs', 2]]),
                   observable=api_status(['DQ', 'Q', 'AQ', 'NQ', 'LK', 'IT', 'TP', 'AE']), impl_checks=[chk_api_no_panic],
                   special='scale_api', crash_is_violation=True)
-PROPS['C11'] = P_('navigation agrees with the tree', 'arena,api,it', plan(G_COMMON_QUICK[:3] + [['lexedge', 1], ['manyattrs', 1], ['sizes', 1]], G_COMMON_THOROUGH[:4] + [['lexedge', 1], ['manyattrs', 1], ['sizes', 2]]),
+PROPS['C11'] = P_('navigation agrees with the tree', 'arena,api,it', plan(G_COMMON_QUICK[:3] + [['lexedge', 1], ['manyattrs', 1], ['sizes', 1], ['pairs', 1]], G_COMMON_THOROUGH[:4] + [['lexedge', 1], ['manyattrs', 1], ['sizes', 2], ['pairs', 2]]),
                   observable=obs_api(['DQ', 'Q', 'IT', 'AQ', 'NQ']), oracles=['C11.'], impl_checks=[chk_itx])
-PROPS['C12'] = P_('name lookups', 'arena,api,lk', plan(G_COMMON_QUICK[:3] + [['lexedge', 1], ['manyattrs', 1], ['sizes', 1]], G_COMMON_THOROUGH[:4] + [['lexedge', 1], ['manyattrs', 1], ['sizes', 2]]),
+PROPS['C12'] = P_('name lookups', 'arena,api,lk', plan(G_COMMON_QUICK[:3] + [['lexedge', 1], ['manyattrs', 1], ['sizes', 1], ['pairs', 1]], G_COMMON_THOROUGH[:4] + [['lexedge', 1], ['manyattrs', 1], ['sizes', 2], ['pairs', 2]]),
                   observable=obs_api(['LK', 'AE', 'NQ', 'AQ']), oracles=['C12.'], special='lookups')
-PROPS['C13'] = P_('source ranges', 'arena,api', plan(G_COMMON_QUICK[:3] + [['lexedge', 1], ['manyattrs', 1], ['sizes', 1]], G_COMMON_THOROUGH[:4] + [['lexedge', 1], ['manyattrs', 1], ['sizes', 2]]),
+PROPS['C13'] = P_('source ranges', 'arena,api', plan(G_COMMON_QUICK[:3] + [['lexedge', 1], ['manyattrs', 1], ['sizes', 1], ['pairs', 1]], G_COMMON_THOROUGH[:4] + [['lexedge', 1], ['manyattrs', 1], ['sizes', 2], ['pairs', 2]]),
                   observable=mk_obs(lambda d: d.ranges()), oracles=['C13.'], special='shift', requires=['structure', 'texts'])
 PROPS['C14'] = P_('text positions and error reports', 'arena,tp', plan(G_COMMON_QUICK + [['dtdjunk', 720]], G_COMMON_THOROUGH + [['dtdjunk', 20000]]),
                   observable=obs_errors, impl_checks=[chk_err_pos], special='errshift')
@@ -492,11 +492,11 @@ PROPS['C15'] = P_('nodes_limit', 'arena', plan([['model', 600, 10], ['limitedge'
                   observable=obs_limit, oracles=['C15.'], special='limits')
 PROPS['C16'] = P_('allow_dtd', 'arena', plan([['model', 1500, 20], ['mut', 800, 400], ['lexedge', 1], ['sizes', 1]], [['model', 20000, 20], ['mut', 20000, 1000], ['lexedge', 1], ['sizes', 2]]),
                   observable=obs_flag('DtdDetected'), impl_checks=[chk_no_growth_default], special='dtdpairs')
-PROPS['C17'] = P_('node identity, ordering, hashing', 'arena,api,it', plan([['model', 300, 0], ['entities', 4], ['entity-boundary', 1]], [['model', 3000, 0], ['entities', 16], ['entity-boundary', 1]]),
+PROPS['C17'] = P_('node identity, ordering, hashing', 'arena,api,it', plan([['model', 300, 0], ['entities', 4], ['entity-boundary', 1], ['pairs', 1]], [['model', 3000, 0], ['entities', 16], ['entity-boundary', 1], ['pairs', 2]]),
                   observable=obs_api(['DQ']), special='ord', impl_checks=[chk_itx])
-PROPS['C18'] = P_('borrowed strings', 'arena', plan(G_COMMON_QUICK[:3] + [['lexedge', 1], ['manyattrs', 1], ['sizes', 1]], G_COMMON_THOROUGH[:4] + [['lexedge', 1], ['manyattrs', 1], ['sizes', 2]]),
+PROPS['C18'] = P_('borrowed strings', 'arena', plan(G_COMMON_QUICK[:3] + [['lexedge', 1], ['manyattrs', 1], ['sizes', 1], ['pairs', 1]], G_COMMON_THOROUGH[:4] + [['lexedge', 1], ['manyattrs', 1], ['sizes', 2], ['pairs', 2]]),
                   observable=mk_obs(lambda d: d.storages()), impl_checks=[chk_borrowed], special='storage', requires=['structure', 'texts', 'attributes'])
-PROPS['C19'] = P_('determinism and features', 'arena', plan([['model', 800, 20], ['fixtures', 4000], ['manyattrs', 1], ['lexedge', 1], ['entities', 4], ['manyents', 1], ['sizes', 2], ['blocktext', 1]], [['model', 10000, 20], ['fixtures', 20000], ['mut', 5000, 400], ['manyattrs', 1], ['lexedge', 1], ['entities', 16], ['manyents', 1], ['sizes', 2], ['sizes-big', 1], ['blocktext', 2]]),
+PROPS['C19'] = P_('determinism and features', 'arena', plan([['model', 800, 20], ['fixtures', 4000], ['manyattrs', 1], ['lexedge', 1], ['entities', 4], ['manyents', 1], ['sizes', 2], ['blocktext', 1], ['ns', 1], ['pairs', 1]], [['model', 10000, 20], ['fixtures', 20000], ['mut', 5000, 400], ['manyattrs', 1], ['lexedge', 1], ['entities', 16], ['manyents', 1], ['sizes', 2], ['sizes-big', 1], ['blocktext', 2], ['ns', 5], ['pairs', 2]]),
                   observable=None, internal=[], special='features')
 PROPS['C20'] = P_('immutable, thread-shareable, no unsafe', 'arena,api', plan([['model', 200, 0]], [['model', 6000, 0]]),
                   observable=None, special='threads')
